@@ -39,6 +39,18 @@ def hcountOf (k : AtomKind) : Nat :=
 
 def orderSum (bs : List Bond) : Nat := (bs.map (fun b => b.kind.order)).sum
 
+/-- `Atom::new` -/
+def Atom.new (k : AtomKind) : Atom := ⟨k, []⟩
+
+/-- `Atom::is_aromatic` -/
+def Atom.isAromatic (a : Atom) : Bool := a.kind.isAromatic
+
+/-- `Bond::is_aromatic` -/
+def Bond.isAromatic (b : Bond) : Bool := b.kind == .aromatic
+
+/-- `Bond::is_directional` -/
+def Bond.isDirectional (b : Bond) : Bool := b.kind == .up || b.kind == .down
+
 /-- `Atom::subvalence` -/
 def Atom.subvalence (a : Atom) : Nat :=
   let valence := hcountOf a.kind + orderSum a.bonds
